@@ -2,21 +2,287 @@
 
 package kvql
 
-// Contracts for filter_optimizer.go (properties C02, C18). Comment-only file.
+// Contracts for filter_optimizer.go (properties C02, C18). Comment-only file:
+// with the build tag off it is not compiled, with it on it compiles to nothing.
+//
+// Oracle. holds(e, k, v) is "expression e evaluates to true on the pair (k, v)"
+// under the documented operator semantics (README, "Operators"); the axioms
+// sem_* below transcribe what the documentation says a key-constraining atom
+// means. Everything else is opaque: an atom without an axiom may hold anywhere.
+//
+// covers(st, k) is the set of keys a ScanType stands for, read off what
+// Optimize() builds and the scan plans read.
 
-//@ define wfST(st *ScanType) Bool = st != nil && st.scanTp >= 1 && st.scanTp <= 5 && (st.scanTp == PREFIX ==> len(st.keys) >= 1) && (st.scanTp == RANGE ==> len(st.keys) == 2)
+//@ specfun holds(Int, B, B) Bool
+//
+//@ define wfRange(s NB, e NB) Bool = !(isnil(s) && isnil(e)) && (!isnil(s) && !isnil(e) ==> val(s) <= val(e))
+//@ define wfST(st *ScanType) Bool = st != nil && st.scanTp >= 1 && st.scanTp <= 5
+//@   | && (st.scanTp == MGET ==> (forall i Int :: 0 <= i && i < len(st.keys) ==> !isnil(st.keys[i])))
+//@   | && (st.scanTp == PREFIX ==> len(st.keys) >= 1 && !isnil(st.keys[0]))
+//@   | && (st.scanTp == RANGE ==> len(st.keys) == 2 && wfRange(st.keys[0], st.keys[1]))
 //
 //@ define coversRange(s NB, e NB, k B) Bool = (isnil(s) || val(s) <= k) && (isnil(e) || k <= val(e))
 //
 //@ define covers(st *ScanType, k B) Bool = ite(st.scanTp == EMPTY, false, ite(st.scanTp == MGET, member(st.keys, len(st.keys), k), ite(st.scanTp == PREFIX, pre(val(st.keys[0]), k), ite(st.scanTp == RANGE, coversRange(st.keys[0], st.keys[1], k), true))))
 //
+//@ define isKey(x Expression) Bool = is(x, *FieldExpr) && as(x, *FieldExpr).Field == KeyKW
+//@ define isStr(x Expression) Bool = is(x, *StringExpr)
+//@ define strOf(x Expression) B = val(as(x, *StringExpr).Data)
+//
+//@ axiom sem_and(e *BinaryOpExpr, k B, v B): (e.Op == And || e.Op == KWAnd) && holds(e, k, v) ==> holds(e.Left, k, v) && holds(e.Right, k, v)
+//@ axiom sem_or(e *BinaryOpExpr, k B, v B): (e.Op == Or || e.Op == KWOr) && holds(e, k, v) ==> holds(e.Left, k, v) || holds(e.Right, k, v)
+//@ axiom sem_eq(e *BinaryOpExpr, k B, v B): e.Op == Eq && holds(e, k, v) ==> (isKey(e.Left) && isStr(e.Right) ==> k == strOf(e.Right)) && (isStr(e.Left) && isKey(e.Right) ==> k == strOf(e.Left))
+//@ axiom sem_prefix(e *BinaryOpExpr, k B, v B): e.Op == PrefixMatch && holds(e, k, v) ==> (isKey(e.Left) && isStr(e.Right) ==> pre(strOf(e.Right), k)) && (isStr(e.Left) && isKey(e.Right) ==> pre(k, strOf(e.Left)))
+//@ axiom sem_gt(e *BinaryOpExpr, k B, v B): e.Op == Gt && holds(e, k, v) ==> (isKey(e.Left) && isStr(e.Right) ==> strOf(e.Right) < k) && (isStr(e.Left) && isKey(e.Right) ==> k < strOf(e.Left))
+//@ axiom sem_gte(e *BinaryOpExpr, k B, v B): e.Op == Gte && holds(e, k, v) ==> (isKey(e.Left) && isStr(e.Right) ==> strOf(e.Right) <= k) && (isStr(e.Left) && isKey(e.Right) ==> k <= strOf(e.Left))
+//@ axiom sem_lt(e *BinaryOpExpr, k B, v B): e.Op == Lt && holds(e, k, v) ==> (isKey(e.Left) && isStr(e.Right) ==> k < strOf(e.Right)) && (isStr(e.Left) && isKey(e.Right) ==> strOf(e.Left) < k)
+//@ axiom sem_lte(e *BinaryOpExpr, k B, v B): e.Op == Lte && holds(e, k, v) ==> (isKey(e.Left) && isStr(e.Right) ==> k <= strOf(e.Right)) && (isStr(e.Left) && isKey(e.Right) ==> strOf(e.Left) <= k)
+//@ axiom sem_false(e Expression, k B, v B): is(e, *BoolExpr) && holds(e, k, v) ==> as(e, *BoolExpr).Bool
+//
 //@ func inRange(start, end, val []byte, isEnd bool) bool
 //@   pure
 //
+// ---------------------------------------------------------------- RANGE x RANGE
+//
 //@ func (o *FilterOptimizer) unionRange(l, r *ScanType) (res *ScanType)
-//@   props C02
+//@   props C02 C18
 //@   ghost k B
 //@   requires wfST(l) && wfST(r) && l.scanTp == RANGE && r.scanTp == RANGE
 //@   ensures wf: wfST(res)
 //@   ensures[C02] covers: old(covers(l, k)) || old(covers(r, k)) ==> covers(res, k)
 //@   assigns nothing
+//
+//@ func (o *FilterOptimizer) intersectionRange(l, r *ScanType) (res *ScanType)
+//@   props C02 C18
+//@   ghost k B
+//@   requires wfST(l) && wfST(r) && l.scanTp == RANGE && r.scanTp == RANGE
+//@   ensures wf: wfST(res)
+//@   ensures[C02] covers: old(covers(l, k)) && old(covers(r, k)) ==> covers(res, k)
+//@   assigns nothing
+//
+// ---------------------------------------------------------------- PREFIX x PREFIX
+//
+//@ func (o *FilterOptimizer) intersectionPrefix(l, r *ScanType) (res *ScanType)
+//@   props C02 C18
+//@   ghost k B
+//@   requires wfST(l) && wfST(r) && l.scanTp == PREFIX && r.scanTp == PREFIX
+//@   ensures wf: wfST(res)
+//@   ensures[C02] covers: old(covers(l, k)) && old(covers(r, k)) ==> covers(res, k)
+//@   assigns nothing
+//
+//@ func (o *FilterOptimizer) unionPrefix(l, r *ScanType) (res *ScanType)
+//@   props C02 C18
+//@   ghost k B
+//@   requires wfST(l) && wfST(r) && l.scanTp == PREFIX && r.scanTp == PREFIX
+//@   ensures wf: wfST(res)
+//@   ensures[C02] covers: old(covers(l, k)) || old(covers(r, k)) ==> covers(res, k)
+//@   assigns nothing
+//
+// ---------------------------------------------------------------- PREFIX x RANGE
+//
+//@ func (o *FilterOptimizer) intersectionPrefixAndRange(prefix, srange *ScanType) (res *ScanType)
+//@   props C02 C18
+//@   ghost k B
+//@   requires wfST(prefix) && wfST(srange) && prefix.scanTp == PREFIX && srange.scanTp == RANGE
+//@   ensures wf: wfST(res)
+//@   ensures[C02] covers: old(covers(prefix, k)) && old(covers(srange, k)) ==> covers(res, k)
+//@   assigns nothing
+//
+//@ func (o *FilterOptimizer) unionPrefixAndRange(prefix, srange *ScanType) (res *ScanType)
+//@   props C02 C18
+//@   ghost k B
+//@   requires wfST(prefix) && wfST(srange) && prefix.scanTp == PREFIX && srange.scanTp == RANGE
+//@   ensures wf: wfST(res)
+//@   ensures[C02] covers: old(covers(prefix, k)) || old(covers(srange, k)) ==> covers(res, k)
+//@   assigns nothing
+//
+// ---------------------------------------------------------------- MGET x PREFIX / RANGE
+//
+//@ func (o *FilterOptimizer) intersectionMgetAndPrefix(mget, prefix *ScanType) (res *ScanType)
+//@   props C02 C18
+//@   ghost k B
+//@   requires wfST(mget) && wfST(prefix) && mget.scanTp == MGET && prefix.scanTp == PREFIX
+//@   ensures wf: wfST(res)
+//@   ensures[C02] covers: old(covers(mget, k)) && old(covers(prefix, k)) ==> covers(res, k)
+//@   assigns nothing
+//@   loop 0 (k)
+//@     invariant nn: forall i Int :: 0 <= i && i < len(ikeys) ==> !isnil(ikeys[i])
+//@     invariant acc: member(mget.keys, rangeindex + 1, k) && pre(val(prefixKey), k) ==> member(ikeys, len(ikeys), k)
+//@     decreases len(mget.keys) - rangeindex
+//
+//@ func (o *FilterOptimizer) unionMgetAndPrefix(mget, prefix *ScanType) (res *ScanType)
+//@   props C02 C18
+//@   ghost k B
+//@   requires wfST(mget) && wfST(prefix) && mget.scanTp == MGET && prefix.scanTp == PREFIX
+//@   ensures wf: wfST(res)
+//@   ensures[C02] covers: old(covers(mget, k)) || old(covers(prefix, k)) ==> covers(res, k)
+//@   assigns nothing
+//@   loop 0 (k)
+//@     invariant all: !havePrefixNotMatch ==> (member(mget.keys, rangeindex + 1, k) ==> pre(val(prefixKey), k))
+//@     decreases len(mget.keys) - rangeindex
+//
+//@ func (o *FilterOptimizer) intersectionMgetAndRange(mget, srange *ScanType) (res *ScanType)
+//@   props C02 C18
+//@   ghost k B
+//@   requires wfST(mget) && wfST(srange) && mget.scanTp == MGET && srange.scanTp == RANGE
+//@   ensures wf: wfST(res)
+//@   ensures[C02] covers: old(covers(mget, k)) && old(covers(srange, k)) ==> covers(res, k)
+//@   assigns nothing
+//@   loop 0 (k)
+//@     invariant nn: forall i Int :: 0 <= i && i < len(ikeys) ==> !isnil(ikeys[i])
+//@     invariant acc: member(mget.keys, rangeindex + 1, k) && coversRange(rstart, rend, k) ==> member(ikeys, len(ikeys), k)
+//@     decreases len(mget.keys) - rangeindex
+//
+//@ func (o *FilterOptimizer) unionMgetAndRange(mget, srange *ScanType) (res *ScanType)
+//@   props C02 C18
+//@   ghost k B
+//@   requires wfST(mget) && wfST(srange) && mget.scanTp == MGET && srange.scanTp == RANGE
+//@   ensures wf: wfST(res)
+//@   ensures[C02] covers: old(covers(mget, k)) || old(covers(srange, k)) ==> covers(res, k)
+//@   assigns nothing
+//@   loop 0 (k)
+//@     invariant all: !haveRangeNotMatch ==> (member(mget.keys, rangeindex + 1, k) ==> coversRange(rstart, rend, k))
+//@     decreases len(mget.keys) - rangeindex
+//
+// ---------------------------------------------------------------- atoms
+//
+//@ func (o *FilterOptimizer) optimizeEqualExpr(e *BinaryOpExpr) (res *ScanType)
+//@   props C02 C18
+//@   ghost k B, v B
+//@   requires e != nil && e.Op == Eq
+//@   use sem_eq(e, k, v)
+//@   ensures wf: wfST(res)
+//@   ensures[C02] covers: holds(e, k, v) ==> covers(res, k)
+//@   assigns nothing
+//
+//@ func (o *FilterOptimizer) optimizePrefixMatchExpr(e *BinaryOpExpr) (res *ScanType)
+//@   props C02 C18
+//@   ghost k B, v B
+//@   requires e != nil && e.Op == PrefixMatch
+//@   use sem_prefix(e, k, v)
+//@   ensures wf: wfST(res)
+//@   ensures[C02] covers: holds(e, k, v) ==> covers(res, k)
+//@   assigns nothing
+//
+//@ func (o *FilterOptimizer) optimizeGtGteExpr(e *BinaryOpExpr) (res *ScanType)
+//@   props C02 C18
+//@   ghost k B, v B
+//@   requires e != nil && (e.Op == Gt || e.Op == Gte)
+//@   use sem_gt(e, k, v)
+//@   use sem_gte(e, k, v)
+//@   ensures wf: wfST(res)
+//@   ensures[C02] covers: holds(e, k, v) ==> covers(res, k)
+//@   assigns nothing
+//
+//@ func (o *FilterOptimizer) optimizeLtLteExpr(e *BinaryOpExpr) (res *ScanType)
+//@   props C02 C18
+//@   ghost k B, v B
+//@   requires e != nil && (e.Op == Lt || e.Op == Lte)
+//@   use sem_lt(e, k, v)
+//@   use sem_lte(e, k, v)
+//@   ensures wf: wfST(res)
+//@   ensures[C02] covers: holds(e, k, v) ==> covers(res, k)
+//@   assigns nothing
+//
+// ---------------------------------------------------------------- AND / OR / dispatch
+//
+//@ func (o *FilterOptimizer) optimizeAndExpr(e *BinaryOpExpr) (res *ScanType)
+//@   props C02 C18
+//@   ghost k B, v B
+//@   requires e != nil && (e.Op == And || e.Op == KWAnd)
+//@   use sem_and(e, k, v)
+//@   ensures wf: wfST(res)
+//@   ensures[C02] covers: holds(e, k, v) ==> covers(res, k)
+//@   assigns nothing
+//
+//@ func (o *FilterOptimizer) optimizeOrExpr(e *BinaryOpExpr) (res *ScanType)
+//@   props C02 C18
+//@   ghost k B, v B
+//@   requires e != nil && (e.Op == Or || e.Op == KWOr)
+//@   use sem_or(e, k, v)
+//@   ensures wf: wfST(res)
+//@   ensures[C02] covers: holds(e, k, v) ==> covers(res, k)
+//@   assigns nothing
+//
+//@ func (o *FilterOptimizer) optimizeExpr(expr Expression) (res *ScanType)
+//@   props C02 C18
+//@   ghost k B, v B
+//@   use sem_false(expr, k, v)
+//@   ensures wf: wfST(res)
+//@   ensures[C02] covers: holds(expr, k, v) ==> covers(res, k)
+//@   assigns nothing
+//
+// ---------------------------------------------------------------- IN / BETWEEN
+//
+//@ define listOf(e *BinaryOpExpr) []Expression = as(e.Right, *ListExpr).List
+//@ define inListStr(L []Expression, n Int, k B) Bool = exists i Int :: 0 <= i && i < n && isStr(L[i]) && strOf(L[i]) == k
+//@ define someNonStr(L []Expression, n Int) Bool = exists i Int :: 0 <= i && i < n && !isStr(L[i])
+//
+//@ axiom sem_in(e *BinaryOpExpr, k B, v B): e.Op == In && holds(e, k, v) && isKey(e.Left) && is(e.Right, *ListExpr) && !someNonStr(listOf(e), len(listOf(e))) ==> inListStr(listOf(e), len(listOf(e)), k)
+//@ axiom sem_between(e *BinaryOpExpr, k B, v B): e.Op == Between && holds(e, k, v) && isKey(e.Left) && is(e.Right, *ListExpr) && len(listOf(e)) == 2 && isStr(listOf(e)[0]) && isStr(listOf(e)[1]) ==> strOf(listOf(e)[0]) <= k && k <= strOf(listOf(e)[1])
+//
+//@ func (o *FilterOptimizer) optimizeInExpr(e *BinaryOpExpr) (res *ScanType)
+//@   props C02 C18
+//@   ghost k B, v B
+//@   requires e != nil && e.Op == In
+//@   use sem_in(e, k, v)
+//@   ensures wf: wfST(res)
+//@   ensures[C02] covers: holds(e, k, v) ==> covers(res, k)
+//@   assigns nothing
+//@   loop 0 (expr)
+//@     invariant nn: forall i Int :: 0 <= i && i < len(keys) ==> !isnil(keys[i])
+//@     invariant allstr: canUseMget ==> !someNonStr(listOf(e), rangeindex + 1)
+//@     invariant acc: inListStr(listOf(e), rangeindex + 1, k) ==> member(keys, len(keys), k)
+//@     decreases len(listOf(e)) - rangeindex
+//
+//@ func (o *FilterOptimizer) optimizeBetweenExpr(e *BinaryOpExpr) (res *ScanType)
+//@   props C02 C18
+//@   ghost k B, v B
+//@   requires e != nil && e.Op == Between
+//@   use sem_between(e, k, v)
+//@   ensures wf: wfST(res)
+//@   ensures[C02] covers: holds(e, k, v) ==> covers(res, k)
+//@   assigns nothing
+//@   loop 0 (expr)
+//@     invariant lo: canUseRange && rangeindex >= 0 ==> isStr(listOf(e)[0]) && !isnil(lower) && val(lower) == strOf(listOf(e)[0])
+//@     invariant hi: canUseRange && rangeindex >= 1 ==> isStr(listOf(e)[1]) && !isnil(upper) && val(upper) == strOf(listOf(e)[1])
+//@     decreases len(listOf(e)) - rangeindex
+//
+// ---------------------------------------------------------------- MGET x MGET (maps)
+//
+//@ func (o *FilterOptimizer) unionMget(l, r *ScanType) (res *ScanType)
+//@   props C02 C18
+//@   ghost k B
+//@   requires wfST(l) && wfST(r) && l.scanTp == MGET && r.scanTp == MGET
+//@   ensures wf: wfST(res)
+//@   ensures[C02] covers: old(covers(l, k)) || old(covers(r, k)) ==> covers(res, k)
+//@   assigns nothing
+//@   loop 0 (k)
+//@     invariant mapwf: forall q B :: has(ukeys, q) ==> !isnil(ukeys[q]) && val(ukeys[q]) == q
+//@     invariant acc: member(l.keys, rangeindex + 1, k) ==> has(ukeys, k)
+//@   loop 1 (k)
+//@     invariant mapwf: forall q B :: has(ukeys, q) ==> !isnil(ukeys[q]) && val(ukeys[q]) == q
+//@     invariant acc: member(l.keys, len(l.keys), k) || member(r.keys, rangeindex + 1, k) ==> has(ukeys, k)
+//@   loop 2 (v)
+//@     invariant mapwf: forall q B :: has(ukeys, q) ==> !isnil(ukeys[q]) && val(ukeys[q]) == q
+//@     invariant nn: forall i Int :: 0 <= i && i < len(keys) ==> !isnil(keys[i])
+//@     invariant acc: has(ukeys, k) && visited(k) ==> member(keys, len(keys), k)
+//
+//@ func (o *FilterOptimizer) intersectionMget(l, r *ScanType) (res *ScanType)
+//@   props C02 C18
+//@   ghost k B
+//@   requires wfST(l) && wfST(r) && l.scanTp == MGET && r.scanTp == MGET
+//@   ensures wf: wfST(res)
+//@   ensures[C02] covers: old(covers(l, k)) && old(covers(r, k)) ==> covers(res, k)
+//@   assigns nothing
+//@   loop 0 (k)
+//@     invariant mapwf: forall q B :: has(lkeys, q) ==> !isnil(lkeys[q]) && val(lkeys[q]) == q
+//@     invariant acc: member(l.keys, rangeindex + 1, k) ==> has(lkeys, k)
+//@   loop 1 (k)
+//@     invariant mapwf: forall q B :: has(lkeys, q) ==> !isnil(lkeys[q]) && val(lkeys[q]) == q
+//@     invariant keepl: member(l.keys, len(l.keys), k) ==> has(lkeys, k)
+//@     invariant acc: member(r.keys, rangeindex + 1, k) ==> has(rkeys, k)
+//@   loop 2 (lv)
+//@     invariant mapwf: forall q B :: has(lkeys, q) ==> !isnil(lkeys[q]) && val(lkeys[q]) == q
+//@     invariant nn: forall i Int :: 0 <= i && i < len(keys) ==> !isnil(keys[i])
+//@     invariant acc: has(lkeys, k) && has(rkeys, k) && visited(k) ==> member(keys, len(keys), k)
